@@ -49,6 +49,17 @@ pub fn lib_source(spec: &Value) -> String {
         // definitions, and no export declaration at all: the library exposes nothing
         return "(define-library (lib noexp)\n  (import (scheme base))\n  (begin\n    (define weight 5)\n    (define (list . x) 'noexp-private)\n    (define (weigh) (+ weight 1))))\n".to_string();
     }
+    if spec["lookalike"].as_bool().unwrap_or(false) {
+        // two libraries whose names are written differently and print alike: (lib u v) and
+        // (lib |u v|) are different libraries with different files
+        let tag = spec["tag"].as_str().unwrap_or("uv");
+        return format!(
+            "(define-library {}\n  (import (scheme base))\n  (export {t}-next! {t}-look)\n  (begin (define n {}) (define ({t}-next!) (set! n (+ n 1)) n) (define ({t}-look) n)))\n",
+            key_of(spec["short"].as_str().unwrap_or("u v")),
+            spec["start"].as_i64().unwrap_or(0),
+            t = tag
+        );
+    }
     if spec["ovr"].as_bool().unwrap_or(false) {
         // a library that defines, and exports, a name it also imported, and defines a name of
         // its own again in a later block: what it exports are its own, final definitions,
@@ -283,7 +294,13 @@ fn write_world(prog: &Path, libs: &[Value]) {
 fn write_lib(prog: &Path, spec: &Value) {
     let dir = prog.join("lib");
     let s = spec["short"].as_str().unwrap();
-    let path = dir.join(format!("{}.sld", s));
+    let path = match spec["file"].as_str() {
+        Some(f) => dir.join(f),
+        None => dir.join(format!("{}.sld", s)),
+    };
+    if let Some(parent) = path.parent() {
+        let _ = std::fs::create_dir_all(parent);
+    }
     // remove whatever was there
     if let Ok(md) = std::fs::symlink_metadata(&path) {
         if md.is_dir() {
@@ -335,7 +352,12 @@ fn register_libs(it: &mut Interpreter<'static, f32>, libs: &[Value]) -> Result<(
                 continue;
             }
             let s = spec["short"].as_str().unwrap();
-            let name = library_name_of(&["lib", s]);
+            let comps: Vec<String> = match spec["components"].as_array() {
+                Some(a) => a.iter().filter_map(|x| x.as_str().map(|s| s.to_string())).collect(),
+                None => vec!["lib".to_string(), s.to_string()],
+            };
+            let comps_ref: Vec<&str> = comps.iter().map(|s| s.as_str()).collect();
+            let name = library_name_of(&comps_ref);
             let text = lib_source(spec);
             match LibraryFactory::from_char_stream(&name, text.chars()) {
                 Ok(f) => it.register_library_factory(f),
@@ -534,6 +556,10 @@ fn external_names(spec: &Value) -> Vec<(String, String)> {
     if spec["native"].as_bool().unwrap_or(false) {
         return vec![("nat-box".to_string(), "box".to_string())];
     }
+    if spec["lookalike"].as_bool().unwrap_or(false) {
+        let tag = spec["tag"].as_str().unwrap_or("uv");
+        return vec![(format!("{}-next!", tag), "next".to_string()), (format!("{}-look", tag), "look".to_string())];
+    }
     if spec["ovr"].as_bool().unwrap_or(false) {
         return vec![
             ("own-abs".to_string(), "use-helper".to_string()),
@@ -625,6 +651,24 @@ pub fn generate_c13(seed: u64, quick: bool) -> Value {
     }
     if with_base {
         ops.push(json!({"op": "eval", "k": "import-base", "t": "(import (scheme base))"}));
+    }
+    if rng.chance(1, 6) {
+        let mut pair = vec![
+            json!({"short": "u v", "lookalike": true, "components": ["lib", "u", "v"], "file": "u/v.sld", "tag": "uv",
+                   "imports": [], "health": "healthy", "delivery": if rng.chance(1, 3) { "registered" } else { "file" }, "start": rng.range(100, 150)}),
+            json!({"short": "|u v|", "lookalike": true, "components": ["lib", "u v"], "file": "u v.sld", "tag": "u-v",
+                   "imports": [], "health": "healthy", "delivery": if rng.chance(1, 3) { "registered" } else { "file" }, "start": rng.range(500, 550)}),
+        ];
+        if rng.chance(1, 2) {
+            pair.reverse();
+        }
+        for spec in pair {
+            for (name, kind) in external_names(&spec) {
+                visible.insert(name, Visible { lib: spec["short"].as_str().unwrap().to_string(), kind });
+            }
+            ops.push(json!({"op": "eval", "k": "import-lookalike-name", "t": format!("(import {})", key_of(spec["short"].as_str().unwrap()))}));
+            libs.push(spec);
+        }
     }
     if rng.chance(1, 4) {
         let spec = json!({
